@@ -32,9 +32,28 @@ def split_progs(text):
     return progs
 
 
-def run_harness(progfile, nprogs, timeout=600, extra=None, cap=3000):
-    """Runs the harness over the file, restarting after a crash/abort/timeout.
-    Returns (dict index -> {"lines", "done", "crash"}, raw_text)."""
+SHARDS = max(1, min(8, (os.cpu_count() or 2) // 2))
+
+
+def shard_files(progfile, k):
+    """k files with the same line numbering as progfile; file j keeps the programs
+    with index % k == j (the others are blank lines, which both the harness and the
+    driver skip without renumbering)."""
+    lines = open(progfile).read().splitlines()
+    real = [i for i, l in enumerate(lines) if l.strip() and not l.startswith("#")]
+    k = max(1, min(k, len(real)))
+    if k == 1:
+        return [progfile]
+    files = []
+    for j in range(k):
+        keep = set(real[j::k])
+        f = f"{progfile}.s{j}"
+        open(f, "w").write("\n".join(l if i in keep else "" for i, l in enumerate(lines)) + "\n")
+        files.append(f)
+    return files
+
+
+def _run_harness_one(progfile, nprogs, timeout, extra, cap):
     results = {}
     skip = 0
     raw = []
@@ -74,9 +93,38 @@ def run_harness(progfile, nprogs, timeout=600, extra=None, cap=3000):
     return results, "".join(raw)
 
 
-def run_driver(mode, path, timeout=1200, cap=3000):
-    p = subprocess.run([DRIVER, mode, path, "--cap", str(cap)], capture_output=True, text=True, timeout=timeout)
-    return p.stdout, p.returncode, p.stderr
+def run_harness(progfile, nprogs, timeout=600, extra=None, cap=3000, shards=None):
+    """Runs the harness over the file (sharded over several processes), restarting
+    after a crash/abort/timeout. Returns (dict index -> {"lines", "done", "crash"}, raw_text).
+    The time limit is per process and generous: a program that hangs is found by it,
+    a loaded machine must not be."""
+    from concurrent.futures import ThreadPoolExecutor
+    files = shard_files(progfile, shards or SHARDS)
+    with ThreadPoolExecutor(len(files)) as ex:
+        parts = list(ex.map(lambda f: _run_harness_one(f, nprogs, timeout, extra, cap), files))
+    results, raw = {}, []
+    for r, t in parts:
+        results.update(r)
+        raw.append(t)
+    return results, "".join(raw)
+
+
+def run_driver(mode, path, timeout=3600, cap=3000):
+    """The extracted model / specification on a program file, sharded over several
+    processes (modes whose input is a program file); other modes run as one process."""
+    if mode not in ("run", "keys", "ref", "refw", "rc11s", "rc11w"):
+        p = subprocess.run([DRIVER, mode, path, "--cap", str(cap)], capture_output=True, text=True, timeout=timeout)
+        return p.stdout, p.returncode, p.stderr
+    from concurrent.futures import ThreadPoolExecutor
+    files = shard_files(path, SHARDS)
+
+    def one(f):
+        p = subprocess.run([DRIVER, mode, f, "--cap", str(cap)], capture_output=True, text=True, timeout=timeout)
+        return p.stdout, p.returncode, p.stderr
+    with ThreadPoolExecutor(len(files)) as ex:
+        parts = list(ex.map(one, files))
+    code = max((c for _, c, _ in parts), key=abs, default=0)
+    return "".join(o for o, _, _ in parts), code, "".join(e for _, _, e in parts)
 
 
 def strip_api(lines):
